@@ -100,12 +100,17 @@ WriteBytes ==
            /\ WStepOK(Ev, wr2)
            /\ wrs' = [wrs EXCEPT ![Ev.o] = Logged(wr2, Ev.nb)]
 
+\* a successful flush (or close) reaches the backend: its flush() is called at least once,
+\* so that a buffering backend (a BufWriter under the word adapter) delivers too
+BackendFlushed(e) == (Has(e, "bfl") /\ e.res = "ok") => e.bfl >= 1
+
 Flush ==
     /\ Is("flush") /\ Step /\ UNCHANGED rds /\ LiveW(Ev.o)
     /\ LET wr == wrs[Ev.o]
            wr2 == IF Ev.res = "ok" THEN [wr EXCEPT !.pend = <<>>, !.room = IF @ < 0 \/ wr.pend = <<>> THEN @ ELSE @ - 1]
                   ELSE [wr EXCEPT !.dead = TRUE]
        IN  /\ FlushStep(wr, Ev.res, Ev.ret, Delivered(Ev, wr), wr2)
+           /\ BackendFlushed(Ev)
            /\ WStepOK(Ev, wr2)
            /\ wrs' = [wrs EXCEPT ![Ev.o] = Logged(wr2, Ev.nb)]
 
@@ -119,6 +124,7 @@ Close ==
     /\ LET wr == wrs[Ev.o]  wr2 == [wr EXCEPT !.pend = <<>>, !.dead = TRUE]
            wl == Logged(wr, Ev.nb)
        IN  /\ CloseStep(wr, Ev.res, Delivered(Ev, wr), [wr EXCEPT !.pend = <<>>, !.room = IF @ < 0 \/ wr.pend = <<>> THEN @ ELSE @ - 1])
+           /\ BackendFlushed(Ev)
            /\ wl.dn <= Len(Ev.image)
            /\ FoldLeft(H1, 0, SubSeq(Ev.image, 1, wl.dn)) = wl.h1
            /\ FoldLeft(H2, 0, SubSeq(Ev.image, 1, wl.dn)) = wl.h2
